@@ -50,6 +50,8 @@ class BufSize:
         self.fn, self.cfg, self.ptr_ids, self.n_id = fn, fn.cfg, set(ptr_ids), n_id
         self.obl = {}
         self.undecided = None
+        self.probes = {}            # short callee name -> argument index whose upper bound is recorded at every call
+        self.probe_results = {}
 
     def lid(self, e):
         e = strip(e)
@@ -98,6 +100,14 @@ class BufSize:
             a, b = self.ub(e.get('l'), st), self.ub(e.get('r'), st)
             if a and b and a[0] == b[0]:
                 return (a[0], max(a[1], b[1]))
+            # (x > k) ? k : x  and its mirror images are min(x, k): bounded by either operand
+            c = strip(e.get('cnd'))
+            if c is not None and c.get('k') == 'BinaryOperator' and c.get('op') in ('<', '>', '<=', '>='):
+                cl, cr, tl, tr = show(strip(c['l'])), show(strip(c['r'])), show(strip(e['l'])), show(strip(e['r']))
+                is_min = (c['op'] in ('>', '>=') and cl == tr and cr == tl) or (c['op'] in ('<', '<=') and cl == tl and cr == tr)
+                if is_min:
+                    rel = [x for x in (a, b) if x and x[0] == 'rel']
+                    return rel[0] if rel else (a or b)
         return None
 
     def set_ub(self, st, vid, b):
@@ -122,12 +132,19 @@ class BufSize:
                             st.nmin = max(st.nmin, k + 1)
                         elif o == '==':
                             st.nmin = max(st.nmin, k)
-                # v < E / v <= E
+                # v < E / v <= E, also v + k < E
                 vid = self.lid(a)
+                off = 0
+                sa = strip(a)
+                if vid is None and sa is not None and sa.get('k') == 'BinaryOperator' and sa.get('op') in ('+', '-') and const_of(sa['r']) is not None and self.lid(sa['l']) is not None:
+                    vid = self.lid(sa['l'])
+                    off = const_of(sa['r']) * (1 if sa['op'] == '+' else -1)
+                    if off < 0 and (strip(sa['l']).get('t') or {}).get('u'):
+                        vid = None          # v - k on an unsigned v may wrap: no bound
                 if vid is not None and vid != self.n_id and vid not in self.ptr_ids and o in ('<', '<='):
                     bb = self.ub(b, st)
                     if bb is not None:
-                        nb = (bb[0], bb[1] - (1 if o == '<' else 0))
+                        nb = (bb[0], bb[1] - (1 if o == '<' else 0) - off)
                         cur = ('rel', st.rel[vid]) if vid in st.rel else (('cst', st.cst[vid]) if vid in st.cst else None)
                         if nb[0] == 'rel':
                             st.rel[vid] = min(nb[1], st.rel.get(vid, nb[1]))
@@ -174,6 +191,10 @@ class BufSize:
                 if v.get('init') is not None:
                     st = self.eff(v['init'], st, loc)
                     st = st.copy()
+                    if v['id'] == self.n_id:
+                        # the size symbol is (re)defined here (a per-iteration local): bounds relative to its old value are void
+                        st.rel.clear(); st.nmin = 0; st.skew = 0
+                        continue
                     self.set_ub(st, v['id'], self.ub(v['init'], st))
             return st
         if k in ('ConditionalOperator',):
@@ -240,6 +261,13 @@ class BufSize:
                     self.set_ub(st, vid, None)
             return st
         if 'callee' in e:
+            pi = self.probes.get(short(callee_name(e)))
+            if pi is not None and pi < len(e.get('a', [])):
+                b_ = self.ub(e['a'][pi], st)
+                k_ = (e.get('ln'), '%s(.., %s)' % (short(callee_name(e)), show(e['a'][pi])[:40]))
+                old = self.probe_results.get(k_, 'unset')
+                if old == 'unset' or b_ is None or (old is not None and old[0] == b_[0] and b_[1] > old[1]):
+                    self.probe_results[k_] = b_
             for a in e.get('a', []):
                 sa = strip(a)
                 if sa is not None and sa.get('k') == 'UnaryOperator' and sa.get('op') == '&':
@@ -296,6 +324,7 @@ class BufSize:
                     inn[t] = new
                     work.append(t)
         self.obl = {}
+        self.probe_results = {}
         for bid, st in inn.items():
             self.block(bid, st)
         return self.obl
